@@ -56,8 +56,16 @@ package gmtls
 // the signed input is assembled in memory of its own; nothing the caller holds is written
 //@ (func "(*eccKeyAgreementGM).hashForServerKeyExchange" sweep
 //@   (modifies))
-//@ (func "(*ecdheKeyAgreement).processClientKeyExchange" sweep
-//@   (requires args (and (not (isnil config)) (not (isnil cert)) (not (isnil ckx)))))
+// (C06) on the NIST curves the pre-master secret is the buffer of field size into which the x-coordinate is copied
+// right-aligned (RFC 4492 5.10), not the minimal big-endian form of x
+//@ (func "(*ecdheKeyAgreement).processClientKeyExchange" sweep split-returns
+//@   (requires args (and (not (isnil config)) (not (isnil cert)) (not (isnil ckx))))
+//@   (ensures-internal width (=> (and (isnil result.1) (not (= (old (field ka curveid)) #x001d)))
+//@        (and (= (obj result.0) (obj preMasterSecret)) (= (len result.0) (len preMasterSecret)) (= (off result.0) (off preMasterSecret))))))
+//@ (func "(*ecdheKeyAgreement).generateClientKeyExchange" sweep split-returns
+//@   (requires args (and (not (isnil ka)) (not (isnil config)) (not (isnil clientHello))))
+//@   (ensures-internal width (=> (and (isnil result.2) (not (= (old (field ka curveid)) #x001d)))
+//@        (and (= (obj result.0) (obj preMasterSecret)) (= (len result.0) (len preMasterSecret))))))
 //@ (func "(*ecdheKeyAgreement).processServerKeyExchange" sweep
 //@   (requires args (and (not (isnil config)) (not (isnil clientHello)) (not (isnil serverHello)) (not (isnil cert)) (not (isnil skx)))))
 
